@@ -72,15 +72,15 @@ def HeadCur (h : Nat) (c : Cursor) : Prop :=
 has no position yet and nothing has been applied -/
 def StreamRest (f : Fol) : Prop :=
   (f.cur.seq ≠ seqNone ∧
-    ((f.cur.writed = true ∧ f.cur.seq + 1 = f.log.length ∧ f.curId = f.log.length) ∨
+    ((f.cur.writed = true ∧ f.cur.seq + 1 = f.log.length) ∨
      (f.cur.writed = false ∧ f.cur.seq = f.log.length ∧ f.cur.bufId = f.cur.seq + 1))) ∨
   (f.cur = newCursor ∧ f.log = [])
 
 def ConnOk (f : Fol) : Prop :=
   match f.conn with
-  | .off => f.curId = f.log.length
-  | .wait none => f.cur.seq ≠ seqNone ∧ f.cur.writed = true ∧ f.cur.seq + 1 = f.log.length ∧ f.curId = f.log.length
-  | .wait (some h) => f.log = [] ∧ f.curId = 0 ∧ HeadCur h f.cur
+  | .off => True
+  | .wait none => f.cur.seq ≠ seqNone ∧ f.cur.writed = true ∧ f.cur.seq + 1 = f.log.length
+  | .wait (some h) => f.log = [] ∧ HeadCur h f.cur
   | .files h pos => f.log.length = pos ∧ pos + 1 ≤ h ∧ HeadCur h f.cur
   | .stream => StreamRest f
 
@@ -92,6 +92,7 @@ structure FolOk (q : Q) (n : Nat) (f : Fol) : Prop where
   has : CurHas q f.cur
   pre : Prefix1 f.log
   len : f.log.length ≤ n
+  cid : f.curId = f.log.length     -- the id the follower would report is ALWAYS the id of the last record it has applied
   conn : ConnOk f
 
 structure SInv (A : Nat) (s : Sync) (hist : List (Nat × Nat × Nat)) : Prop where
@@ -106,7 +107,7 @@ structure SInv (A : Nat) (s : Sync) (hist : List (Nat × Nat × Nat)) : Prop whe
 theorem prefix1_nil : Prefix1 [] := rfl
 
 theorem folOk_new (q : Q) (n : Nat) : FolOk q n Fol.new :=
-  ⟨curOk_new q, fun sid hs => (by cases hs), prefix1_nil, Nat.zero_le _, rfl⟩
+  ⟨curOk_new q, fun sid hs => (by cases hs), prefix1_nil, Nat.zero_le _, rfl, trivial⟩
 
 theorem sinv_init (b m : Nat) : SInv 0 (Sync.init b m) [] := by
   refine ⟨inv_new b m, ?_, rfl, prefix1_nil, (by show 0 < seqNone; decide), ?_, rfl⟩
@@ -133,7 +134,7 @@ theorem sinv_set {A A' : Nat} {s : Sync} {hist} (h : SInv A s hist) (q' : Q) (n 
     · simp only [hm, if_true]; exact hf
     · simp only [hm, if_false]
       have := h.fol m
-      exact ⟨hcur _ this.cur, hhas _ this.has, this.pre, this.len, this.conn⟩
+      exact ⟨hcur _ this.cur, hhas _ this.has, this.pre, this.len, this.cid, this.conn⟩
   · show q'.pollCount = polledCount (setF s.fols n f')
     have := polledCount_setF s.fols n f'
     have := h.cnt
@@ -150,7 +151,7 @@ theorem sinv_setF {A : Nat} {s : Sync} {hist} (h : SInv A s hist) (n : Nat) (f' 
 theorem addPoll_pollCount (q : Q) (c : Cursor) : (addPoll q c).pollCount = (q.pollCount + 1) % W32 := by
   unfold addPoll
   generalize (q.pollCount + 1) % W32 = k
-  exact (walk_pointwise { q with pollCount := k } incPollCount Same same_refl same_incPollCount c.cur).2.2.2
+  exact (walk_pointwise { q with pollCount := k } incPollCount Same same_refl same_incPollCount (addStart q c)).2.2.2
 
 theorem removePoll_pollCount (q : Q) (c : Cursor) : (removePoll q c).pollCount = (q.pollCount + W32 - 1) % W32 := by
   unfold removePoll
@@ -185,7 +186,7 @@ theorem append_step {A s hist} (h : SInv A s hist) (dlen : Nat) (hb : s.log.leng
   · simp only [List.length_append, List.length_singleton]; exact hb
   · intro n
     have := h.fol n
-    refine ⟨push_curOk h.q this.cur _ _ _, fun sid hs => push_has _ _ _ (this.has sid hs), this.pre, ?_, this.conn⟩
+    refine ⟨push_curOk h.q this.cur _ _ _, fun sid hs => push_has _ _ _ (this.has sid hs), this.pre, ?_, this.cid, this.conn⟩
     have := this.len
     simp; omega
   · show (push s.q _ _ _).pollCount = polledCount s.fols
@@ -226,7 +227,7 @@ theorem connectFull_step {A s hist} (h : SInv A s hist) (n : Nat) (hoff : (getF 
   obtain ⟨c1, c2, c3⟩ := hc
   rw [h.hlen] at c3
   apply sinv_setF h n
-  · exact ⟨c1, c2, prefix1_nil, Nat.zero_le _, ⟨rfl, rfl, c3⟩⟩
+  · exact ⟨c1, c2, prefix1_nil, Nat.zero_le _, rfl, ⟨rfl, c3⟩⟩
   · simp [polledB, hoff, Conn.polled]
 
 theorem connect_step {A s hist} (h : SInv A s hist) (n : Nat) : SInv A (sstep s (.connect n)).1 hist := by
@@ -235,8 +236,7 @@ theorem connect_step {A s hist} (h : SInv A s hist) (n : Nat) : SInv A (sstep s 
   simp only []
   by_cases hoff : (getF s.fols n).conn = .off
   · have hfo := h.fol n
-    have hco : (getF s.fols n).curId = (getF s.fols n).log.length := by
-      have := hfo.conn; unfold ConnOk at this; rw [hoff] at this; exact this
+    have hco : (getF s.fols n).curId = (getF s.fols n).log.length := hfo.cid
     simp only [hoff, ne_eq, not_true_eq_false, if_false]
     by_cases h0 : (getF s.fols n).curId = 0
     · simp only [h0, if_true]
@@ -249,7 +249,7 @@ theorem connect_step {A s hist} (h : SInv A s hist) (n : Nat) : SInv A (sstep s 
         have hb := h.hok _ _ g3
         simp only at hb
         apply sinv_setF h n
-        · refine ⟨g6, ?_, hfo.pre, hfo.len, ?_⟩
+        · refine ⟨g6, ?_, hfo.pre, hfo.len, hco, ?_⟩
           · intro sid hsid
             have hsid' : (search s.q (getF s.fols n).curId newCursor).2.cur = some sid := hsid
             rw [hcur] at hsid'; cases hsid'; exact has_of_live hit
@@ -258,7 +258,7 @@ theorem connect_step {A s hist} (h : SInv A s hist) (n : Nat) : SInv A (sstep s 
             simp only []
             have := h.qseq
             have := h.bnd
-            exact ⟨by omega, g7, by omega, hco⟩
+            exact ⟨by omega, g7, by omega⟩
         · simp [polledB, hoff, Conn.polled]
       · simp only [hs, if_false]
         by_cases hend : (getF s.fols n).curId = s.log.length
@@ -287,15 +287,14 @@ theorem connect_step {A s hist} (h : SInv A s hist) (n : Nat) : SInv A (sstep s 
 theorem headCur_pos {h c} (hc : HeadCur h c) : 1 ≤ h := by
   rcases hc with ⟨_, _, a, b⟩ | ⟨_, b⟩ <;> omega
 
-theorem start_step {A s hist} (h : SInv A s hist) (n : Nat) (hA : A + 1 < M32)
-    (hg : AddGuard s.q (getF s.fols n).cur) :
+theorem start_step {A s hist} (h : SInv A s hist) (n : Nat) (hA : A + 1 < M32) :
     SInv (A + 1) (sstep s (.start n)).1 hist := by
   show SInv (A + 1) (start s n).1 hist
   have hfo := h.fol n
   have hw : ∀ f', FolOk (addPoll s.q (getF s.fols n).cur) s.log.length f' → polledB f' = 1 → polledB (getF s.fols n) = 0 →
       SInv (A + 1) { s with q := addPoll s.q (getF s.fols n).cur, fols := setF s.fols n f' } hist := by
     intro f' hf hp1 hp0
-    apply sinv_set h _ n f' (addPoll_inv h.q hg) (fun _ x => addPoll_curOk x) (fun _ x sid hs => addPoll_has (x sid hs)) hf
+    apply sinv_set h _ n f' (addPoll_inv h.q) (fun _ x => addPoll_curOk x) (fun _ x sid hs => addPoll_has (x sid hs)) hf
     rw [addPoll_pollCount, hp1, hp0]
     have := h.q.pc
     have : (s.q.pollCount + 1) % W32 = s.q.pollCount + 1 := Nat.mod_eq_of_lt (by unfold M32 at hA; unfold W32; omega)
@@ -306,19 +305,19 @@ theorem start_step {A s hist} (h : SInv A s hist) (n : Nat) (hA : A + 1 < M32)
   · rename_i hc
     have hco := hfo.conn; unfold ConnOk at hco; rw [hc] at hco
     apply hw
-    · refine ⟨addPoll_curOk hfo.cur, fun sid hs => addPoll_has (hfo.has sid hs), hfo.pre, hfo.len, ?_⟩
+    · refine ⟨addPoll_curOk hfo.cur, fun sid hs => addPoll_has (hfo.has sid hs), hfo.pre, hfo.len, hfo.cid, ?_⟩
       show StreamRest _
-      exact Or.inl ⟨hco.1, Or.inl ⟨hco.2.1, hco.2.2.1, hco.2.2.2⟩⟩
+      exact Or.inl ⟨hco.1, Or.inl ⟨hco.2.1, hco.2.2⟩⟩
     · simp [polledB, Conn.polled]
     · simp [polledB, hc, Conn.polled]
   · rename_i hh hc
     have hco := hfo.conn; unfold ConnOk at hco; rw [hc] at hco
     apply hw
-    · refine ⟨addPoll_curOk hfo.cur, fun sid hs => addPoll_has (hfo.has sid hs), hfo.pre, hfo.len, ?_⟩
-      show ConnOk { getF s.fols n with curId := hh, conn := .files hh 0 }
+    · refine ⟨addPoll_curOk hfo.cur, fun sid hs => addPoll_has (hfo.has sid hs), hfo.pre, hfo.len, hfo.cid, ?_⟩
+      show ConnOk { getF s.fols n with conn := .files hh 0 }
       unfold ConnOk
       simp only []
-      refine ⟨by rw [hco.1]; rfl, headCur_pos hco.2.2, hco.2.2⟩
+      refine ⟨by rw [hco.1]; rfl, headCur_pos hco.2, hco.2⟩
     · simp [polledB, Conn.polled]
     · simp [polledB, hc, Conn.polled]
   · exact h.mono_A
@@ -346,7 +345,7 @@ theorem deliverFiles_step {A s hist} (h : SInv A s hist) (n hh pos : Nat) (hc : 
   have hstream : pos + 1 = hh → SInv A { s with fols := setF s.fols n { getF s.fols n with conn := .stream } } hist := by
     intro he
     apply sinv_setF h n
-    · refine ⟨hfo.cur, hfo.has, hfo.pre, hfo.len, ?_⟩
+    · refine ⟨hfo.cur, hfo.has, hfo.pre, hfo.len, hfo.cid, ?_⟩
       show StreamRest _
       rcases hcur with ⟨a1, a2, a3, a4⟩ | ⟨b1, b2⟩
       · exact Or.inl ⟨a1, Or.inr ⟨a2, by show (getF s.fols n).cur.seq = (getF s.fols n).log.length; omega, a3⟩⟩
@@ -366,10 +365,12 @@ theorem deliverFiles_step {A s hist} (h : SInv A s hist) (n hh pos : Nat) (hc : 
     by_cases hlt : id < hh
     · simp only [hlt, if_true]
       apply sinv_setF h n
-      · refine ⟨hfo.cur, hfo.has, ?_, ?_, ?_⟩
+      · refine ⟨hfo.cur, hfo.has, ?_, ?_, ?_, ?_⟩
         · show Prefix1 ((getF s.fols n).log ++ [id])
           rw [hidv, ← hpos]; exact prefix1_snoc hfo.pre
         · show ((getF s.fols n).log ++ [id]).length ≤ s.log.length
+          simp; omega
+        · show id = ((getF s.fols n).log ++ [id]).length
           simp; omega
         · show ConnOk { getF s.fols n with log := (getF s.fols n).log ++ [id], curId := id, conn := .files hh (pos + 1) }
           unfold ConnOk
@@ -455,7 +456,7 @@ theorem deliverStream_step {A s hist} (h : SInv A s hist) (n : Nat) (hA : A < M3
         have hc' := ack_cursor ha hw
         have hlt := (hfo.cur hpos).1
         apply sinv_set h q' n _ (ack_inv h.q ha) (fun _ x => ack_curOk ha x) (fun _ x sid hs => ack_has ha (x sid hs))
-        · refine ⟨ack_curOk_self ha hfo.cur, ?_, ?_, ?_, ?_⟩
+        · refine ⟨ack_curOk_self ha hfo.cur, ?_, ?_, ?_, ?_, ?_⟩
           · intro sid hsid
             have hsid' : c'.cur = some sid := hsid
             rw [a6] at hsid'
@@ -464,12 +465,12 @@ theorem deliverStream_step {A s hist} (h : SInv A s hist) (n : Nat) (hA : A < M3
             rw [hbuf, hseq]; exact prefix1_snoc hfo.pre
           · show ((getF s.fols n).log ++ [(getF s.fols n).cur.bufId]).length ≤ s.log.length
             simp; omega
+          · show (getF s.fols n).cur.bufId = ((getF s.fols n).log ++ [(getF s.fols n).cur.bufId]).length
+            simp; omega
           · refine connOk_stream hc ?_
-            refine Or.inl ⟨by show c'.seq ≠ seqNone; rw [a5]; exact hpos, Or.inl ⟨by show c'.writed = true; rw [hc'], ?_, ?_⟩⟩
-            · show c'.seq + 1 = ((getF s.fols n).log ++ [(getF s.fols n).cur.bufId]).length
-              rw [a5]; simp; omega
-            · show (getF s.fols n).cur.bufId = ((getF s.fols n).log ++ [(getF s.fols n).cur.bufId]).length
-              simp; omega
+            refine Or.inl ⟨by show c'.seq ≠ seqNone; rw [a5]; exact hpos, Or.inl ⟨by show c'.writed = true; rw [hc'], ?_⟩⟩
+            show c'.seq + 1 = ((getF s.fols n).log ++ [(getF s.fols n).cur.bufId]).length
+            rw [a5]; simp; omega
         · rw [a4, hpb]; simp [polledB, hc, Conn.polled]
       · rw [hnew] at hw; cases hw
   · rename_i hw
@@ -487,14 +488,14 @@ theorem deliverStream_step {A s hist} (h : SInv A s hist) (n : Nat) (hA : A < M3
       have hb := h.hok _ _ g2
       simp only at hb
       apply sinv_set h s.q n _ h.q (fun _ x => x) (fun _ x => x)
-      · refine ⟨g4, ?_, hfo.pre, hfo.len, ?_⟩
+      · refine ⟨g4, ?_, hfo.pre, hfo.len, hfo.cid, ?_⟩
         · intro sid hsid
           have hsid' : (pop s.q (getF s.fols n).cur).2.cur = some sid := hsid
           rw [hcur] at hsid'; cases hsid'; exact has_of_live hit
         · refine connOk_stream hc ?_
           refine Or.inl ⟨by show (pop s.q (getF s.fols n).cur).2.seq ≠ seqNone; omega, Or.inr ⟨g5, ?_, hb⟩⟩
           show (pop s.q (getF s.fols n).cur).2.seq = (getF s.fols n).log.length
-          rcases hco with ⟨hpos, ⟨_, hseq, _⟩ | ⟨w, _⟩⟩ | ⟨hnew, hlog⟩
+          rcases hco with ⟨hpos, ⟨_, hseq⟩ | ⟨w, _⟩⟩ | ⟨hnew, hlog⟩
           · rcases g3 with g | g
             · exact absurd g hpos
             · omega
@@ -512,10 +513,10 @@ theorem deliverStream_step {A s hist} (h : SInv A s hist) (n : Nat) (hA : A < M3
       rename_i hnok hneof
       simp only []
       have hpos_cnt : 0 < s.q.pollCount := by rw [h.cnt]; exact polledCount_pos s.fols n (by rw [hc]; rfl)
-      rcases hco with ⟨hpos, ⟨_, _, hcid⟩ | ⟨w, _⟩⟩ | ⟨hnew, _⟩
+      rcases hco with ⟨hpos, ⟨_, _⟩ | ⟨w, _⟩⟩ | ⟨hnew, _⟩
       · apply sinv_set h _ n _ (removePoll_inv h.q hpos_cnt hA) (fun _ x => removePoll_curOk x)
           (fun _ x sid hs => removePoll_has (x sid hs))
-        · exact ⟨removePoll_curOk hfo.cur, fun sid hs => removePoll_has (hfo.has sid hs), hfo.pre, hfo.len, hcid⟩
+        · exact ⟨removePoll_curOk hfo.cur, fun sid hs => removePoll_has (hfo.has sid hs), hfo.pre, hfo.len, hfo.cid, trivial⟩
         · rw [removePoll_pollCount, hpb]
           have : polledB { getF s.fols n with conn := Conn.off } = 0 := by simp [polledB, Conn.polled]
           rw [this]
@@ -544,7 +545,7 @@ theorem dropChannel_step {A s hist} (h : SInv A s hist) (n : Nat) (hA : A < M32)
     have hpos_cnt : 0 < s.q.pollCount := by rw [h.cnt]; exact polledCount_pos s.fols n hp
     apply sinv_set h _ n _ (removePoll_inv h.q hpos_cnt hA) (fun _ x => removePoll_curOk x)
       (fun _ x sid hs => removePoll_has (x sid hs))
-    · refine ⟨?_, ?_, hpre, hlen, by unfold ConnOk; rw [hoff]; exact hcid⟩
+    · refine ⟨?_, ?_, hpre, hlen, hcid, by unfold ConnOk; rw [hoff]; trivial⟩
       · rcases hcur with e | e <;> rw [e]
         · exact removePoll_curOk hfo.cur
         · exact curOk_new _
@@ -560,7 +561,7 @@ theorem dropChannel_step {A s hist} (h : SInv A s hist) (n : Nat) (hA : A < M32)
       omega
   · simp only [hp, if_false]
     apply sinv_set h s.q n _ h.q (fun _ x => x) (fun _ x => x)
-    · refine ⟨?_, ?_, hpre, hlen, by unfold ConnOk; rw [hoff]; exact hcid⟩
+    · refine ⟨?_, ?_, hpre, hlen, hcid, by unfold ConnOk; rw [hoff]; trivial⟩
       · rcases hcur with e | e <;> rw [e]
         · exact hfo.cur
         · exact curOk_new _
@@ -570,21 +571,14 @@ theorem dropChannel_step {A s hist} (h : SInv A s hist) (n : Nat) (hA : A < M32)
     · have : polledB (getF s.fols n) = 0 := by simp [polledB, hp]
       omega
 
-/-- the guard of `cut`: the id the follower would report is the id of the last record it has applied -/
-def CutGuard (f : Fol) : Prop := f.curId = f.log.length
-
-instance (f : Fol) : Decidable (CutGuard f) := by unfold CutGuard; exact inferInstance
-
-theorem cut_step {A s hist} (h : SInv A s hist) (n : Nat) (hA : A < M32)
-    (hg : (getF s.fols n).conn ≠ .off → CutGuard (getF s.fols n)) :
+theorem cut_step {A s hist} (h : SInv A s hist) (n : Nat) (hA : A < M32) :
     SInv A (sstep s (.cut n)).1 hist := by
   show SInv A (cut s n).1 hist
   unfold cut
   simp only []
   split
   · exact h
-  · rename_i hne
-    exact dropChannel_step h n hA _ rfl (hg hne) (h.fol n).pre (h.fol n).len (Or.inl rfl)
+  · exact dropChannel_step h n hA _ rfl (h.fol n).cid (h.fol n).pre (h.fol n).len (Or.inl rfl)
 
 theorem restartSame_step {A s hist} (h : SInv A s hist) (n : Nat) (hA : A < M32) :
     SInv A (sstep s (.restartSame n)).1 hist :=
@@ -596,20 +590,14 @@ theorem restartEmpty_step {A s hist} (h : SInv A s hist) (n : Nat) (hA : A < M32
 
 /-! ### guards, and the induction over event sequences -/
 
-/-- The side conditions of the events — each excludes exactly one recorded defect of the unchanged code (or the uint64 wrap):
+/-- The side conditions of the events that remain after the two repairs (`fix: InitSync …`, `fix: AddPoll …`):
 * `append`: fewer than 2^64-1 records (the cursor's "no position" value is not a real seq);
-* `start` (AddPoll): the cursor's item has not been recycled into the free list since `connect` (`C09_no_gap_fails`);
 * `deliver` in the stream phase: a cursor without a position takes its first record while record 1 is still buffered
-  (`C09_resync_fails_empty_buffer`);
-* `cut` (connection lost, follower process lives on): the id the follower will report is the id of the last record it has
-  applied — false exactly between "started" and the arrival of the first record of a transfer from scratch
-  (`C09_resync_fails_early_cut`).
-`restartSame` / `restartEmpty` / `connect` need no guard. -/
+  (`C09_resync_fails_empty_buffer`, not repaired).
+`connect` / `start` / `cut` / `restartSame` / `restartEmpty` need no guard. -/
 def EvOk (s : Sync) : Ev → Prop
   | .append _ => s.log.length + 1 < seqNone
-  | .start n => AddGuard s.q (getF s.fols n).cur
   | .deliver n => (getF s.fols n).conn = .stream → FreshGuard s.q (getF s.fols n)
-  | .cut n => (getF s.fols n).conn ≠ .off → CutGuard (getF s.fols n)
   | _ => True
 
 instance (s : Sync) (ev : Ev) : Decidable (EvOk s ev) := by
@@ -645,7 +633,7 @@ theorem sstep_inv {A s hist} (h : SInv A s hist) (ev : Ev) (hok : EvOk s ev) (hA
   cases ev with
   | append dlen => exact ⟨_, append_step h dlen hok⟩
   | connect n => exact ⟨_, connect_step h n⟩
-  | start n => exact ⟨_, start_step h n hA hok⟩
+  | start n => exact ⟨_, start_step h n hA⟩
   | deliver n =>
     refine ⟨hist, ?_⟩
     cases hc : (getF s.fols n).conn with
@@ -657,7 +645,7 @@ theorem sstep_inv {A s hist} (h : SInv A s hist) (ev : Ev) (hok : EvOk s ev) (hA
     | wait o =>
       show SInv A (deliver s n).1 hist
       rw [deliver_noop (by intro a b; rw [hc]; intro e; cases e) (by rw [hc]; intro e; cases e)]; exact h
-  | cut n => exact ⟨_, cut_step h n hA hok⟩
+  | cut n => exact ⟨_, cut_step h n hA⟩
   | restartSame n => exact ⟨_, restartSame_step h n hA⟩
   | restartEmpty n => exact ⟨_, restartEmpty_step h n hA⟩
 
@@ -722,7 +710,7 @@ theorem sinv_converge {A s hist} (h : SInv A s hist) (n : Nat) (hc : (getF s.fol
       · rename_i hr
         have hp : pop s.q (getF s.fols n).cur = (.eof, (pop s.q (getF s.fols n).cur).2) := by rw [← hr]
         obtain ⟨_, g⟩ := pop_eof h.q hp
-        rcases hco with ⟨hpos, ⟨_, hseq, _⟩ | ⟨w, _⟩⟩ | ⟨hnew, hlog⟩
+        rcases hco with ⟨hpos, ⟨_, hseq⟩ | ⟨w, _⟩⟩ | ⟨hnew, hlog⟩
         · rcases g with g | g
           · have := (hf.cur hpos).1; omega
           · omega
